@@ -4,6 +4,8 @@
 #include "libcall.h"
 #include "model.h"
 
+#include <ctype.h>
+#include <getopt.h>
 #include <pthread.h>
 #include <string.h>
 
@@ -138,6 +140,8 @@ template <class F> static int in_lib(Run &R, OpCtx &c, F f) {
   stdout_reset();
   return j;
 }
+
+template <class F> static int in_lib_keep_stdout(Run &R, OpCtx &c, F f) { return run_in_lib(&c, tramp<F>, &f, R.p->world.step_budget); }
 
 static void violate(Run &R, int ti, int oi, const Op *op, const std::string &cls, const std::string &detail, int mode = M_PLAIN,
                     bool external = true, bool explicit_off = false, int expect_fail = FR_NONE, bool via_file = false) {
